@@ -320,10 +320,32 @@ Theorem C19_emit_sound_CtrlH : forall (v3 : bool) (s : scls) (e : ecls), rows_me
 Proof. exact @emit_sound_CtrlH. Qed.
 Print Assumptions C19_emit_sound_CtrlH.
 
+(* ---- version awareness: the rows of every key use only gates of the key's include file (stdgates.inc has no sxdg);
+   X**-0.5 is sxdg for 2.0 and rx(pi*-0.5) for 3.0, which read with stdgates.inc is the documented matrix up to exp(-i pi/4) ---- *)
+Theorem C19_emit_uses_defined_gates : forall (v3 : bool) (f : qfam) (s : scls) (e : ecls), rows_defined v3 (emit_shape (v3, f, s, e)) = true.
+Proof. exact @emit_uses_defined_gates. Qed.
+Print Assumptions C19_emit_uses_defined_gates.
+
+Theorem C19_mnem_defined_is_qdefined : forall (K : Type) (O : Ops K) (v3 : bool) (us : list (K * K)) (q qc : K) (r : srow) (g : qgate), row_gate O us q qc r = Some g -> qdefined v3 g = mnem_defined v3 (fst (fst r)).
+Proof. exact @mnem_defined_is_qdefined. Qed.
+Print Assumptions C19_mnem_defined_is_qdefined.
+
+Theorem C19_emit_sxdg_only_v2 : emit_shape (false, FX, S0, ESpec (-2)) = Some ((Msxdg, nil, 0%nat :: nil) :: nil) /\ emit_shape (true, FX, S0, ESpec (-2)) = Some ((Mrx, const_angle (-2) :: nil, 0%nat :: nil) :: nil).
+Proof. exact @emit_sxdg_only_v2. Qed.
+Print Assumptions C19_emit_sxdg_only_v2.
+
+Theorem C19_qasm_rule_x_mhalf_v3 : forall (K : Type) (O : Ops K), Laws O -> spec_XPow O (w8c O) (w8 O) (k1 O) = mscale O (w8c O) (qmat O true (QRx (w8c O) (w8 O))).
+Proof. exact @qasm_rule_x_mhalf_v3. Qed.
+Print Assumptions C19_qasm_rule_x_mhalf_v3.
+
 (* ---- the KAK-based two-qubit fallback: the emitted core sequence is the interaction exp(i(x XX + y YY + z ZZ)) up to a unit ---- *)
 Theorem C19_qasm_two_qubit_kak : forall (K : Type) (O : Ops K), Laws O -> forall ux uxc uy uyc uz uzc : K, kmul O ux uxc = k1 O -> kmul O uy uyc = k1 O -> kmul O uz uzc = k1 O -> kak_core O ux uxc uy uyc uz uzc = mscale O uzc (kak_interaction O ux uxc uy uyc uz uzc).
 Proof. exact @qasm_two_qubit_kak. Qed.
 Print Assumptions C19_qasm_two_qubit_kak.
+
+Theorem C19_qasm_two_qubit_kak_v3 : forall (K : Type) (O : Ops K), Laws O -> forall ux uxc uy uyc uz uzc : K, kmul O ux uxc = k1 O -> kmul O uy uyc = k1 O -> kmul O uz uzc = k1 O -> kak_core_v3 O ux uxc uy uyc uz uzc = kak_interaction O ux uxc uy uyc uz uzc.
+Proof. exact @qasm_two_qubit_kak_v3. Qed.
+Print Assumptions C19_qasm_two_qubit_kak_v3.
 
 Theorem C19_pp_sq_x : forall (K : Type) (O0 : Ops K), Laws O0 -> mmul O0 (pp O0 0) (pp O0 0) = mid O0 4.
 Proof. exact @pp_sq_x. Qed.
@@ -361,6 +383,10 @@ Print Assumptions C19_units_generic.
 Example C19_hpow_instance : spec_HPow O16 pyth (kconj O16 pyth) (k1 O16) = mscale O16 (kmul O16 (k1 O16) pyth) (mprod O16 2 (q_ry O16 zeta16 zeta16c :: q_rx O16 pyth (kconj O16 pyth) :: q_ry O16 zeta16c zeta16 :: nil)).
 Proof. exact @hpow_instance. Qed.
 Print Assumptions C19_hpow_instance.
+
+Example C19_row_gate_sxdg_instance : row_gate O8 nil (k1 O8) (k1 O8) (Msxdg, nil, 0%nat :: nil) = Some QSxdg /\ qdefined (K:=K8) true QSxdg = false /\ qdefined (K:=K8) false QSxdg = true.
+Proof. exact @row_gate_sxdg_instance. Qed.
+Print Assumptions C19_row_gate_sxdg_instance.
 
 Example C19_odd_class_units : forallb (fun k : Z => k16_eqb (kmul O16 (kpowZ O16 zeta16 zeta16c k) (kpowZ O16 zeta16 zeta16c k)) (kopp O16 (k1 O16))) (4%Z :: (-4)%Z :: 12%Z :: 20%Z :: nil) = true.
 Proof. exact @odd_class_units. Qed.
